@@ -413,8 +413,15 @@ func ParseSimFile(path string) ([]State, error) {
 		if k+1 < len(idx) {
 			end = idx[k+1][0]
 		}
-		body := strings.TrimSpace(text[m[1]:end])
-		body = strings.TrimSuffix(body, "====")
+		var keep []string
+		for _, ln := range strings.Split(text[m[1]:end], "\n") {
+			t := strings.TrimSpace(ln)
+			if strings.HasPrefix(t, "\\*") || strings.HasPrefix(t, "====") || strings.HasPrefix(t, "----") {
+				continue
+			}
+			keep = append(keep, ln)
+		}
+		body := strings.TrimSpace(strings.Join(keep, "\n"))
 		vs, err := tlaval.ParseState(strings.TrimSpace(body))
 		if err != nil {
 			return nil, fmt.Errorf("%s state %d: %v", path, n, err)
